@@ -47,7 +47,7 @@ ASSUMPTIONS = [
   "per-world geom parameters: world w of a Model whose batched geom_* fields have n rows reads row w % n (documented batching rule); the reference of world w is a copy of the MjModel with that row written into it",
   "qacc is not part of the property statement: under the gating rule (contact and row multisets matched, no iteration limit, stable reference) its agreement is only tallied (gated_qacc_agrees / greyzone / differs); the single exception is FLEXSTRAIN + sparse Jacobian + Newton, where matched rows with a non-optimal result are reported",
 ]
-BUDGET = {"quick": 150, "thorough": 1500}
+BUDGET = {"quick": 300, "thorough": 1500}
 CRASH_IS_VIOLATION = True  # a model accepted by put_model that kills the process inside mjw.forward cannot "agree with MuJoCo"
 
 A = 2e-5
